@@ -45,7 +45,22 @@ def gen_vcf(rng, tier):
                 if a != ref and a not in alts:
                     alts.append(a)
             gts = {}
-            style = rng.choice(['random', 'random', 'hom_split', 'all_ref', 'one_missing'])
+            style = rng.choice(['random', 'random', 'hom_split', 'all_ref', 'one_missing', 'uncarried_alt', 'uncarried_alt',
+                                'indel_last_sample', 'indel_last_sample'])
+            if style == 'uncarried_alt':
+                # multi-allelic record whose later ALTs nobody carries (a second SNV alt or an untrimmed multi-base alt)
+                ref = rng.choice(BASES)
+                others = [b for b in BASES if b != ref]
+                rng.shuffle(others)
+                alts = [others[0], others[1] if rng.random() < 0.6 else others[1] + rng.choice(BASES) + rng.choice(BASES)]
+                if rng.random() < 0.3:
+                    alts.append(others[2])
+            elif style == 'indel_last_sample':
+                # SNV alt + multi-base alt; only the LAST sample (often not selected) carries the multi-base allele
+                ref = rng.choice(BASES)
+                others = [b for b in BASES if b != ref]
+                rng.shuffle(others)
+                alts = [others[0], ref + rng.choice(BASES) + rng.choice(BASES)]
             for k, s in enumerate(samples):
                 ploidy = rng.choice([1, 2, 2, 2])
                 sep = rng.choice(['/', '|'])
@@ -55,12 +70,16 @@ def gen_vcf(rng, tier):
                         i = 0
                     elif style == 'hom_split':
                         i = (k % (len(alts) + 1))
+                    elif style == 'uncarried_alt':
+                        i = k % 2
+                    elif style == 'indel_last_sample':
+                        i = 2 if (k == len(samples) - 1 and len(samples) > 1) else k % 2
                     elif style == 'one_missing' and k == 0:
                         i = None
                     else:
                         i = rng.choice([None] + list(range(len(alts) + 1)) * 3)
                     idx.append(i)
-                if style == 'hom_split' and ploidy == 2:
+                if style in ('hom_split', 'uncarried_alt', 'indel_last_sample') and ploidy == 2:
                     idx[1] = idx[0]
                 gts[s] = {'idx': idx, 'sep': sep}
             sites.append({'c': c, 'pos1': pos, 'ref': ref, 'alts': alts, 'gts': gts})
@@ -91,16 +110,30 @@ def abstract_sites(v):
 
 def gen_config(rng, v):
     r = rng.random()
-    if r < 0.5 or len(v['samples']) == 0:
+    if r < 0.4 or len(v['samples']) == 0:
         sel = None
+    elif r < 0.7 and len(v['samples']) > 1:
+        # everybody but the last sample (the carrier of the multi-base allele in `indel_last_sample` sites)
+        sel = list(v['samples'][:-1])
+        if len(sel) > 1 and rng.random() < 0.3:
+            sel = rng.sample(sel, len(sel) - 1)
     else:
         k = rng.randint(1, len(v['samples']))
         sel = rng.sample(v['samples'], k)
     r = rng.random()
-    if r < 0.45:
+    multi = [s for s in v['sites'] if len(s['alts']) >= 2 and len(s['ref']) == 1]
+    if r < 0.35:
         ign = None
-    elif r < 0.75:
+    elif r < 0.55:
         ign = [['C', 'T'], ['G', 'A']]
+    elif r < 0.85 and multi:
+        # a conversion to an ALT that is listed at some multi-allelic site (carried there or not)
+        ign = []
+        for s in rng.sample(multi, min(len(multi), rng.randint(1, 3))):
+            a = rng.choice([x for x in s['alts'] if len(x) == 1] or [s['alts'][0]])
+            if len(a) == 1 and [s['ref'], a] not in ign:
+                ign.append([s['ref'], a])
+        ign = ign or [['A', 'G']]
     else:
         ign = [[rng.choice(BASES), rng.choice(BASES)] for _ in range(rng.randint(1, 2))]
         ign = [x for x in ign if x[0] != x[1]] or [['A', 'G']]
